@@ -986,9 +986,14 @@ fn c13_command_behind_shutdown_is_answered() {
 
 static mut G_LATE: Option<Ack> = None;
 static mut G_LATE_ERR: bool = false;
-/// a writer that is already past the shutdown gate sends its command now
+static mut G_SD: *const CommandAcknowledgement = core::ptr::null();
+/// a writer that is already past the shutdown gate sends its command now - but only once the worker has taken the
+/// Shutdown command (its acknowledgement is resolved), i.e. while the drain is in progress: a command that arrives
+/// before that is simply part of the backlog (`c13_command_behind_shutdown_is_answered`), and a conditionally queued
+/// command in front of the dispatch would make CBMC explore every command arm
 fn interfering_send(_site: u32) {
     unsafe {
+        if !ackk::vk_is_done(&*G_SD) { return; }
         match (&*G_CACHE).command_executor.send(crate::cache::command::CommandType::Delete(103)) {
             Ok(a) => { G_LATE = Some(core::mem::ManuallyDrop::new(a)); }
             Err(_) => { G_LATE_ERR = true; }
@@ -1008,7 +1013,8 @@ fn c13_late_send_races_drain() {
     unsafe { G_CACHE = c as *const CacheD<u64, u64>; G_LATE = None; G_LATE_ERR = false; }
     let sd = hold(c.command_executor.shutdown());
     let behind = hold(c.command_executor.send(crate::cache::command::CommandType::Delete(101)));
-    vs::set_hook(interfering_send, 1);
+    unsafe { G_SD = Arc::as_ptr(&sd); }
+    vs::set_hook(interfering_send, 2);
     // candidate points: every dequeue operation of the worker (recv / try_recv) - the window in which a late command can
     // arrive between two dequeues; placing it at every lock operation as well did not finish within 15 min
     vs::set_hook_sites(1 << vs::S_Q_RECV);
